@@ -7,7 +7,11 @@
 (* (names, arguments, ordered delta, counters - rendered canonically with  *)
 (* dictionary insertion order made explicit) differs.                      *)
 (*   Runs[k][t].events : sequence of canonical event strings of input t    *)
-(*   under the k-th seed.                                                  *)
+(*   under the k-th seed.  The LAST run is not another seed but another    *)
+(*   run in one process: the graph is restructured twice from the same     *)
+(*   block objects and the second run is the recorded one ("the same input *)
+(*   graph always yields the identical result" also means that a run       *)
+(*   leaves nothing behind, in the blocks it was given or anywhere else).  *)
 (***************************************************************************)
 EXTENDS Naturals, Sequences, TLC, Json, IOUtils
 
